@@ -114,6 +114,7 @@ class Scheduler:
         # targeted preemption: [thread name, point kind, nth visit, release predicate, max virtual delay, visits so far]
         self.holds = []
         self.holds_taken = 0
+        self.step_hook = None       # optional observer called at every scheduling point (must not block or schedule)
         self.quantum = 0            # library jumps executed since the last scheduling point (spin detection)
         self.spins = []
         if trace_prefix:
@@ -229,6 +230,8 @@ class Scheduler:
 
     def _point(self, cur, kind, pred, timeout, line):
         self.quantum = 0
+        if self.step_hook is not None and not self.killing:
+            self.step_hook(cur, kind)
         if self.holds and not self.killing and not kind.startswith("held:"):
             for h in self.holds:
                 if h[0] == cur.name and h[1] == kind:
@@ -604,12 +607,16 @@ class FakeSock:
         return errno.EINPROGRESS
 
     def _take_error(self):
-        """pending socket error (ECONNREFUSED / ECONNRESET) is reported once, to whichever call comes first"""
+        """pending socket error (ECONNREFUSED / ECONNRESET / ETIMEDOUT / EHOSTUNREACH) is reported once, to whichever call comes first"""
         if self.pending_error is not None:
             e, self.pending_error = self.pending_error, None
             self.error_taken = True
             if e == errno.ECONNREFUSED:
                 raise ConnectionRefusedError(e, "Connection refused")
+            if e == errno.ETIMEDOUT:
+                raise TimeoutError(e, "Connection timed out")
+            if e == errno.EHOSTUNREACH:
+                raise OSError(e, "No route to host")
             raise ConnectionResetError(e, "Connection reset by peer")
 
     def send(self, data):
@@ -720,6 +727,13 @@ class Net:
         sock.reset = True
         sock.inbox.clear()
         sock.pending_error = errno.ECONNRESET
+
+    def peer_vanishes(self, sock, err):
+        """the peer host silently disappears: the kernel eventually reports ETIMEDOUT (retransmission timeout) or
+        EHOSTUNREACH on the established connection; afterwards the socket behaves like a reset one"""
+        sock.reset = True
+        sock.inbox.clear()
+        sock.pending_error = err
 
     def peer_connect(self, listener):
         c = FakeSock(self)
